@@ -25,12 +25,16 @@ import (
 	"google.golang.org/protobuf/proto"
 
 	"github.com/shutter-network/rolling-shutter/rolling-shutter/app"
+	"github.com/shutter-network/rolling-shutter/rolling-shutter/keyper"
 	kprdb "github.com/shutter-network/rolling-shutter/rolling-shutter/keyper/database"
 	"github.com/shutter-network/rolling-shutter/rolling-shutter/keyper/dkgphase"
 	"github.com/shutter-network/rolling-shutter/rolling-shutter/keyper/fx"
+	"github.com/shutter-network/rolling-shutter/rolling-shutter/keyper/kprconfig"
 	"github.com/shutter-network/rolling-shutter/rolling-shutter/keyper/shutterevents"
 	"github.com/shutter-network/rolling-shutter/rolling-shutter/keyper/smobserver"
+	"github.com/shutter-network/rolling-shutter/rolling-shutter/medley/configuration"
 	metadb "github.com/shutter-network/rolling-shutter/rolling-shutter/medley/db"
+	"github.com/shutter-network/rolling-shutter/rolling-shutter/medley/encodeable/keys"
 	"github.com/shutter-network/rolling-shutter/rolling-shutter/shdb"
 	"github.com/shutter-network/rolling-shutter/rolling-shutter/shmsg"
 
@@ -121,6 +125,13 @@ type Node struct {
 	TM     *Client
 	chain  *Chain
 	Starts int
+	kcfg   *kprconfig.Config
+}
+
+// GovStep is the second statement of the loop body of KeyperCore.operateShuttermint
+// (handleOnChainChanges in one transaction) with the given main-chain block number.
+func (n *Node) GovStep(ctx context.Context, block uint64) error {
+	return keyper.VerifNewGovCore(n.kcfg, n.pool, n.TM).HandleOnChainChanges(ctx, block)
 }
 
 // start creates the in-memory objects of a keyper process from its database (also used for a
@@ -264,6 +275,9 @@ type WorldOpts struct {
 	Lag  int64
 	Hold int
 	Late int
+	// FirstEon: stop after the check-ins: the keyper config of the eon is NOT registered yet; block 3
+	// (relative block 0, the block that will carry the config votes) is open. For the governance prefix.
+	FirstEon bool
 }
 
 func NewWorldOpts(cfg Cfg, seed int64, o WorldOpts) (*World, error) {
@@ -320,6 +334,15 @@ func NewWorldOpts(cfg Cfg, seed int64, o WorldOpts) (*World, error) {
 		vk := sha256.Sum256([]byte(fmt.Sprintf("verif-valkey-%d", i)))
 		n := &Node{Idx: i, Tok: tokOf(i), priv: k, chain: w.Chain, PG: fakepg.New(),
 			cfg: &nodeConfig{addr: w.U.Addr(tokOf(i)), plen: dkgphase.NewConstantPhaseLength(int64(cfg.PhaseLen)), valKey: ed25519.PublicKey(vk[:]), enc: w.encs[i]}}
+		n.kcfg = &kprconfig.Config{
+			Shuttermint: &kprconfig.ShuttermintConfig{
+				ValidatorPublicKey: &keys.Ed25519Public{Key: ed25519.PublicKey(vk[:])},
+				EncryptionKey:      &keys.ECDSAPrivate{Key: ek},
+				DKGPhaseLength:     int64(cfg.PhaseLen),
+				DKGStartBlockDelta: 10,
+			},
+			Ethereum: &configuration.EthnodeConfig{PrivateKey: &keys.ECDSAPrivate{Key: k}},
+		}
 		n.PG.Restore(tmpl)
 		n.PG.SetLogging(false)
 		if err := n.start(ctx); err != nil {
@@ -354,6 +377,12 @@ func NewWorldOpts(cfg Cfg, seed int64, o WorldOpts) (*World, error) {
 	w.Chain.CloseBlock()
 	if err := w.syncAll(); err != nil {
 		return nil, err
+	}
+	if o.FirstEon {
+		w.H0 = w.Chain.Height() + 1
+		w.Eon = a.EONCounter + 1
+		w.Chain.OpenBlock()
+		return w, nil
 	}
 	// block 3: T votes for keyper config 1
 	w.Chain.OpenBlock()
@@ -937,6 +966,9 @@ func (w *World) absApp() J {
 	d := w.Chain.App.DKGMap[w.Eon]
 	commit, acc, apol, vote := make([]bool, N), make([]bool, N), make([]bool, N), fill(N, "none")
 	eval := matrix(N, false)
+	if d == nil {
+		return J{"commit": commit, "eval": eval, "acc": acc, "apol": apol, "vote": vote}
+	}
 	for i := 1; i <= N; i++ {
 		a := w.addr(i)
 		_, commit[i-1] = d.PolyCommitmentsSeen[a]
